@@ -61,14 +61,15 @@ PROPS = {
                      "zarr refuses to create an array that already exists (the 'length' clash)"],
     ),
     "C08": dict(
-        units=[],
+        units=["GenIcfWriter"],
+        trusted_extra=["translator/icfw2coq.py (IcfFieldWriter -> Gen/GenIcfWriter.v; the read side matched against one shape)"],
         props_files=["Props/C08.v"],
         driver="c08",
         rule="(a) generated value sequences x thresholds x partitionings through the real IcfFieldWriter / "
         "IntermediateColumnarFormatField; all O(n^2) ranges of small stores in shuffled order, sampled above; observed "
         "sys.getsizeof passed to the model; (b) explode of generated VCFs with 1..50 target partitions and column chunk sizes "
         "from bytes to MiB vs the 1-partition reference. distinct = distinct case document; non-trivial = more than one record",
-        status="full (values_roundtrip, range_read for every store shape, summary bounds / partition independence)",
+        status="full (values_roundtrip, range_read for every store shape, summary bounds / partition independence; the translated IcfFieldWriter simulates the model writer)",
         assumptions=["pickle + Blosc round-trip a chunk's value list unchanged (exercised, not modelled)", "sys.getsizeof is an input of the writer model"],
     ),
     "C12": dict(
